@@ -47,16 +47,23 @@ fn get_safe(s: &mut Session, dbs: &Arc<Databases>, k: &str) -> (String, i32) {
 }
 
 // ------------------------------------------------------------------ (a) sequential sweep
-fn sequential_sweep(v: &Verdicts, rng: &mut Rng, thorough: bool) -> (u64, BTreeSet<String>) {
+/// `secondary`: the node that serves the client is a replica. Clients may write to any node; the version rule of a
+/// database without conflict strategy is the same there (increments are only forwarded by a secondary, so the keys are
+/// built and moved with set / set-safe).
+fn sequential_sweep(v: &Verdicts, rng: &mut Rng, thorough: bool, secondary: bool) -> (u64, BTreeSet<String>) {
     let mut n = 0u64;
     let mut classes = BTreeSet::new();
     let (mut node, _adm) = mem_node(&[("db", "none")]);
+    let role_tag = if secondary { "secondary" } else { "primary" };
+    if secondary {
+        node.set_role(ClusterRole::Secoundary);
+    }
     let mut s = Session::new();
     s.call(&node.dbs, "use-db db tok");
     let dbs = node.dbs.clone();
     let mut keyn = 0;
     // the rule for an existing key
-    for build in 0..3 {
+    for build in 0..(if secondary { 2 } else { 3 }) {
         // how the key reaches its current version
         for extra_sets in [0usize, 1, 5] {
             // -2000.. stand for the absolute versions -2, -5 and i32::MIN: below every version a key can have
@@ -76,7 +83,7 @@ fn sequential_sweep(v: &Verdicts, rng: &mut Rng, thorough: bool) -> (u64, BTreeS
                     }
                 }
                 for i in 0..extra_sets {
-                    if i % 2 == 0 {
+                    if i % 2 == 0 || secondary {
                         s.call(&dbs, &format!("set {} 1{}", k, i));
                     } else {
                         s.call(&dbs, &format!("increment {} 1", k));
@@ -102,7 +109,7 @@ fn sequential_sweep(v: &Verdicts, rng: &mut Rng, thorough: bool) -> (u64, BTreeS
                 n += 1;
                 let expect_accept = sent == -1 || sent >= c as i64;
                 let rel = if sent == -1 { "minus-one" } else if sent < -1 { "negative" } else if sent < c as i64 { "older" } else if sent == c as i64 { "equal" } else { "newer" };
-                classes.insert(format!("existing/{}/{}", rel, short(&r).split(' ').next().unwrap()));
+                classes.insert(format!("{}/existing/{}/{}", role_tag, rel, short(&r).split(' ').next().unwrap()));
                 let accepted = matches!(r, Response::Ok {});
                 let refused = matches!(r, Response::VersionError { .. }) || (sent < -1 && matches!(r, Response::Error { .. }));
                 let mut problem = None;
@@ -117,7 +124,7 @@ fn sequential_sweep(v: &Verdicts, rng: &mut Rng, thorough: bool) -> (u64, BTreeS
                 }
                 if let Some(p) = problem {
                     v.report(
-                        json!({"check": "sequential-rule", "case": "existing-key", "sent_vs_current": rel, "problem": p}),
+                        if secondary { json!({"check": "sequential-rule", "case": "existing-key", "sent_vs_current": rel, "problem": p, "node_role": "secondary"}) } else { json!({"check": "sequential-rule", "case": "existing-key", "sent_vs_current": rel, "problem": p}) },
                         json!({"key_built_by": build, "extra_mutations": extra_sets, "current_version": c, "line": line, "reply": short(&r), "after": [val1, c1], "before": [val0, c]}),
                     );
                 }
@@ -154,7 +161,8 @@ fn sequential_sweep(v: &Verdicts, rng: &mut Rng, thorough: bool) -> (u64, BTreeS
             let (_, cur) = get_safe(&mut s, &dbs, &k);
             let line = match rng.below(8) {
                 0..=2 => format!("set {} {}", k, 100 + i),
-                3..=4 => format!("increment {} {}", k, *rng.pick(&[1i32, 2, 3, 0, -1])),
+                3..=4 if !secondary => format!("increment {} {}", k, *rng.pick(&[1i32, 2, 3, 0, -1])),
+                3..=4 => format!("set-safe {} {} {}", k, cur.max(0), 400 + i),
                 5 => format!("set-safe {} {} {}", k, (cur + rng.below(3) as i32 - 1).max(0), 200 + i),
                 6 => format!("set-safe {} {} {}", k, rng.below(4), 300 + i),
                 _ => format!("remove {}", k),
@@ -174,18 +182,18 @@ fn sequential_sweep(v: &Verdicts, rng: &mut Rng, thorough: bool) -> (u64, BTreeS
                 if let Some(hv) = high {
                     if ver <= hv {
                         v.report(
-                            json!({"check": "version-monotonic", "op": word, "problem": "version-not-higher-than-before"}),
+                            if secondary { json!({"check": "version-monotonic", "op": word, "problem": "version-not-higher-than-before", "node_role": "secondary"}) } else { json!({"check": "version-monotonic", "op": word, "problem": "version-not-higher-than-before"}) },
                             json!({"history": h, "trace": trace}),
                         );
                         break;
                     }
                 }
                 high = Some(high.map(|x| x.max(ver)).unwrap_or(ver));
-                classes.insert(format!("mono/{}/grew", word));
+                classes.insert(format!("{}/mono/{}/grew", role_tag, word));
             } else if let Some(hv) = high {
                 if ver != hv {
                     v.report(
-                        json!({"check": "version-monotonic", "op": word, "problem": "refused-op-changed-version"}),
+                        if secondary { json!({"check": "version-monotonic", "op": word, "problem": "refused-op-changed-version", "node_role": "secondary"}) } else { json!({"check": "version-monotonic", "op": word, "problem": "refused-op-changed-version"}) },
                         json!({"history": h, "trace": trace}),
                     );
                     break;
@@ -567,9 +575,13 @@ fn controlled(v: &Verdicts, seed0: u64, mixes: usize, per_mix: usize, pct: bool,
 }
 
 // ------------------------------------------------------------------ (c) free-running stress
-fn stress(v: &Verdicts, rounds: usize, seed0: u64) -> (u64, u64, u64) {
+fn stress(v: &Verdicts, rounds: usize, seed0: u64, secondary: bool) -> (u64, u64, u64) {
     sched::install_delay_injection(seed0);
     let (mut node, _adm) = mem_node(&[("db", "none")]);
+    if secondary {
+        // a replica serving clients: same rule (increments are only forwarded there, so no increment rounds)
+        node.set_role(ClusterRole::Secoundary);
+    }
     let dbs = node.dbs.clone();
     let threads = 8usize;
     let mut cas_rounds = 0u64;
@@ -586,7 +598,7 @@ fn stress(v: &Verdicts, rounds: usize, seed0: u64) -> (u64, u64, u64) {
         .collect();
     for r in 0..rounds {
         let k = format!("r{}", r);
-        let kind = r % 3;
+        let kind = if secondary { [0, 2][r % 2] } else { r % 3 };
         // base state
         let base_sets = r % 4;
         main.call(&dbs, &format!("set {} 0", k));
@@ -685,7 +697,10 @@ pub fn run(tier: &str) -> i32 {
     let v = Verdicts::load("C02");
     let mut ev = Evidence::new("C02", tier, "exploration");
     let mut rng = Rng::new(seed());
-    let (seq_n, seq_classes) = sequential_sweep(&v, &mut rng, thorough);
+    let (seq_n1, mut seq_classes) = sequential_sweep(&v, &mut rng, thorough, false);
+    let (seq_n2, seq_classes2) = sequential_sweep(&v, &mut rng, thorough, true);
+    seq_classes.extend(seq_classes2);
+    let seq_n = seq_n1 + seq_n2;
     let stats = std::sync::Mutex::new(CtlStats {
         schedules: 0,
         distinct_overlapping: BTreeSet::new(),
@@ -700,7 +715,9 @@ pub fn run(tier: &str) -> i32 {
     let (mixes, per_mix) = if thorough { (2400, 80) } else { (240, 40) };
     sched::install_callback_inner();
     controlled(&v, seed(), mixes, per_mix, true, &stats);
-    let (cas_rounds, inc_rounds, contended) = stress(&v, if thorough { 6000 } else { 600 }, seed());
+    let (cas_rounds, inc_rounds, contended) = stress(&v, if thorough { 6000 } else { 600 }, seed(), false);
+    let (cas_rounds2, _, contended2) = stress(&v, if thorough { 2000 } else { 200 }, seed() ^ 0x5ec, true);
+    let (cas_rounds, contended) = (cas_rounds + cas_rounds2, contended + contended2);
     let st = stats.into_inner().unwrap();
     ev.evaluations = st.schedules + seq_n + cas_rounds + inc_rounds;
     ev.distinct_nontrivial = st.distinct_overlapping.len() as u64;
@@ -722,6 +739,7 @@ pub fn run(tier: &str) -> i32 {
         "sequential specification = the same nun-db code executing the recorded command lines one at a time on a fresh database (plus the sequential sweep of the version rule); linearizability is searched per key (P-compositionality)".into(),
         "interleavings are explored at the granularity of lock acquisitions (hook H3); preemption inside a critical section cannot change outcomes".into(),
         "database strategy none, in-memory only (no tombstones)".into(),
+        "the sequential sweep and a quarter of the stress rounds also run on a node whose cluster role is secondary (a replica serving clients; no primary attached, so nothing comes back)".into(),
     ];
     ev.write();
     cleanup_scratch();
